@@ -2,17 +2,413 @@ package main
 
 import (
 	"fmt"
+	"go/ast"
+	"go/parser"
+	"go/token"
 	"os"
 	"path/filepath"
 	"regexp"
+	"sort"
 	"strings"
 )
 
-// instrumentAll runs the per-file passes. verif is needed for generated
-// harness packages (tag stripping).
-func instrumentAll(repo, out string, full *overlay) error {
-	return nil
+// Files of the working tree that get yield calls before every
+// synchronisation operation (controlled scheduler) ...
+var yieldFiles = []string{
+	"packetio/buffer.go",
+	"deadline/deadline.go",
+	"udp/conn.go",
+	"udp/batchconn.go",
+	"netctx/conn.go",
+	"netctx/packetconn.go",
+	"connctx/connctx.go",
+	"vnet/delay_filter.go",
+	"vnet/chunk_queue.go",
 }
+
+// ... and files whose clock reads are redirected to hook functions.
+var clockFiles = []string{
+	"deadline/deadline.go",
+	"deadline/timer_generic.go",
+	"vnet/nat.go",
+	"vnet/tbf.go",
+}
+
+// time facilities the pass cannot virtualise; reported per file.
+var unsupportedTime = map[string]bool{"Sleep": true, "NewTimer": true, "After": true, "Tick": true, "NewTicker": true}
+
+type edit struct {
+	start, end int // byte offsets; start==end: insertion
+	text       string
+	seq        int
+}
+
+type report struct {
+	File        string   `json:"file"`
+	Yields      int      `json:"yields"`
+	GoStmts     int      `json:"go_statements"`
+	ClockReads  int      `json:"clock_reads"`
+	Unsupported []string `json:"unsupported_time_calls"`
+}
+
+func instrumentAll(repo, out string, full *overlay) error {
+	want := map[string][2]bool{}
+	for _, f := range yieldFiles {
+		w := want[f]
+		w[0] = true
+		want[f] = w
+	}
+	for _, f := range clockFiles {
+		w := want[f]
+		w[1] = true
+		want[f] = w
+	}
+	pkgs := map[string]string{} // package dir -> package name
+	var reports []report
+	files := make([]string, 0, len(want))
+	for f := range want {
+		files = append(files, f)
+	}
+	sort.Strings(files)
+	for _, rel := range files {
+		src := filepath.Join(repo, rel)
+		b, err := os.ReadFile(src)
+		if err != nil {
+			// file vanished (refactoring): nothing to instrument; the checks
+			// that need it will notice missing yield labels.
+			continue
+		}
+		w := want[rel]
+		text, pkgName, rep, err := instrumentFile(rel, b, w[0], w[1])
+		if err != nil {
+			return fmt.Errorf("%s: %w", rel, err)
+		}
+		reports = append(reports, rep)
+		dst := filepath.Join(out, "full", rel)
+		if err := os.MkdirAll(filepath.Dir(dst), 0o755); err != nil {
+			return err
+		}
+		if err := writeIfChanged(dst, text); err != nil {
+			return err
+		}
+		full.Replace[src] = dst
+		pkgs[filepath.Dir(rel)] = pkgName
+	}
+	for dir, name := range pkgs {
+		dst := filepath.Join(out, "full", dir, "zz_verif_hooks.go")
+		if err := writeIfChanged(dst, hooksSource(name)); err != nil {
+			return err
+		}
+		full.Replace[filepath.Join(repo, dir, "zz_verif_hooks.go")] = dst
+	}
+	var sb strings.Builder
+	for _, r := range reports {
+		fmt.Fprintf(&sb, "%s: yields=%d go=%d clock=%d unsupported=%v\n", r.File, r.Yields, r.GoStmts, r.ClockReads, r.Unsupported)
+	}
+	return writeIfChanged(filepath.Join(out, "instrument.report"), sb.String())
+}
+
+func writeIfChanged(dst, text string) error {
+	old, err := os.ReadFile(dst)
+	if err == nil && string(old) == text {
+		return nil
+	}
+	if err := os.MkdirAll(filepath.Dir(dst), 0o755); err != nil {
+		return err
+	}
+	tmp := fmt.Sprintf("%s.%d.tmp", dst, os.Getpid())
+	if err := os.WriteFile(tmp, []byte(text), 0o644); err != nil {
+		return err
+	}
+	return os.Rename(tmp, dst)
+}
+
+func instrumentFile(rel string, src []byte, yields, clock bool) (string, string, report, error) {
+	rep := report{File: rel}
+	fset := token.NewFileSet()
+	f, err := parser.ParseFile(fset, rel, src, parser.ParseComments)
+	if err != nil {
+		return "", "", rep, err
+	}
+	base := filepath.Base(rel)
+	off := func(p token.Pos) int { return fset.Position(p).Offset }
+	line := func(p token.Pos) int { return fset.Position(p).Line }
+	var edits []edit
+	add := func(start, end int, text string) {
+		edits = append(edits, edit{start, end, text, len(edits)})
+	}
+
+	importsTime := false
+	for _, im := range f.Imports {
+		if im.Path.Value == `"time"` && im.Name == nil {
+			importsTime = true
+		}
+	}
+
+	if clock && importsTime {
+		ast.Inspect(f, func(n ast.Node) bool {
+			sel, ok := n.(*ast.SelectorExpr)
+			if !ok {
+				return true
+			}
+			id, ok := sel.X.(*ast.Ident)
+			if !ok || id.Name != "time" || id.Obj != nil {
+				return true
+			}
+			switch sel.Sel.Name {
+			case "Now":
+				add(off(sel.Pos()), off(sel.End()), "verifNow")
+				rep.ClockReads++
+			case "Since":
+				add(off(sel.Pos()), off(sel.End()), "verifSince")
+				rep.ClockReads++
+			case "Until":
+				add(off(sel.Pos()), off(sel.End()), "verifUntil")
+				rep.ClockReads++
+			case "AfterFunc":
+				add(off(sel.Pos()), off(sel.End()), "verifAfterFunc")
+				rep.ClockReads++
+			default:
+				if unsupportedTime[sel.Sel.Name] {
+					rep.Unsupported = append(rep.Unsupported, fmt.Sprintf("%s:%d:time.%s", base, line(sel.Pos()), sel.Sel.Name))
+				}
+			}
+			return true
+		})
+	}
+
+	if yields {
+		var doList func(list []ast.Stmt)
+		doList = func(list []ast.Stmt) {
+			for _, st := range list {
+				if lb, ok := st.(*ast.LabeledStmt); ok {
+					st = lb.Stmt
+				}
+				if g, ok := st.(*ast.GoStmt); ok {
+					rep.GoStmts++
+					label := fmt.Sprintf("%s:%d:go", base, line(g.Pos()))
+					if fl, ok := g.Call.Fun.(*ast.FuncLit); ok {
+						add(off(g.Pos()), off(g.Pos()), "verifSpawn(); ")
+						add(off(fl.Body.Lbrace)+1, off(fl.Body.Lbrace)+1, fmt.Sprintf(" verifAdopt(%q); defer verifRetire();", label))
+					} else if len(g.Call.Args) == 0 {
+						call := string(src[off(g.Call.Pos()):off(g.Call.End())])
+						add(off(g.Pos()), off(g.End()), fmt.Sprintf("verifSpawn(); go func() { verifAdopt(%q); defer verifRetire(); %s }()", label, call))
+					}
+					continue
+				}
+				for _, k := range syncKinds(st) {
+					rep.Yields++
+					add(off(st.Pos()), off(st.Pos()), fmt.Sprintf("verifYield(%q); ", fmt.Sprintf("%s:%d:%s", base, line(st.Pos()), k)))
+					break // one yield per statement, labelled by its first operation
+				}
+			}
+		}
+		ast.Inspect(f, func(n ast.Node) bool {
+			switch x := n.(type) {
+			case *ast.BlockStmt:
+				doList(x.List)
+			case *ast.CaseClause:
+				doList(x.Body)
+			case *ast.CommClause:
+				doList(x.Body)
+			}
+			return true
+		})
+	}
+
+	// apply edits back to front; insertions at the same offset keep order
+	sort.SliceStable(edits, func(i, j int) bool {
+		if edits[i].start != edits[j].start {
+			return edits[i].start > edits[j].start
+		}
+		return edits[i].seq > edits[j].seq
+	})
+	out := string(src)
+	for _, e := range edits {
+		out = out[:e.start] + e.text + out[e.end:]
+	}
+	if importsTime {
+		out += "\nvar _ = time.Now // keeps the import used after redirection\n"
+	}
+	// must still parse
+	if _, err := parser.ParseFile(token.NewFileSet(), rel, out, 0); err != nil {
+		return "", "", rep, fmt.Errorf("instrumented file does not parse: %w", err)
+	}
+	return out, f.Name.Name, rep, nil
+}
+
+var lockNames = map[string]string{
+	"Lock": "lock", "RLock": "lock", "Unlock": "unlock", "RUnlock": "unlock",
+	"Wait": "wait", "Add": "wg", "Done": "wg", "Do": "once",
+	"Load": "atomic", "Store": "atomic", "Swap": "atomic", "CompareAndSwap": "atomic",
+	"Close": "closecall",
+}
+
+// syncKinds lists the synchronisation operations in the "header" of a
+// statement (the part evaluated before any nested block).
+func syncKinds(st ast.Stmt) []string {
+	var kinds []string
+	var exprs []ast.Node
+	switch s := st.(type) {
+	case *ast.SelectStmt:
+		for _, c := range s.Body.List {
+			if cc, ok := c.(*ast.CommClause); ok && cc.Comm == nil {
+				return []string{"selectnb"}
+			}
+		}
+		return []string{"select"}
+	case *ast.SendStmt:
+		return []string{"send"}
+	case *ast.ExprStmt:
+		exprs = append(exprs, s.X)
+	case *ast.AssignStmt:
+		for _, e := range s.Rhs {
+			exprs = append(exprs, e)
+		}
+		for _, e := range s.Lhs {
+			exprs = append(exprs, e)
+		}
+	case *ast.ReturnStmt:
+		for _, e := range s.Results {
+			exprs = append(exprs, e)
+		}
+	case *ast.IfStmt:
+		if s.Init != nil {
+			exprs = append(exprs, s.Init)
+		}
+		exprs = append(exprs, s.Cond)
+	case *ast.ForStmt:
+		if s.Init != nil {
+			exprs = append(exprs, s.Init)
+		}
+		if s.Cond != nil {
+			exprs = append(exprs, s.Cond)
+		}
+	case *ast.SwitchStmt:
+		if s.Init != nil {
+			exprs = append(exprs, s.Init)
+		}
+		if s.Tag != nil {
+			exprs = append(exprs, s.Tag)
+		}
+	case *ast.RangeStmt:
+		exprs = append(exprs, s.X)
+	case *ast.IncDecStmt:
+		exprs = append(exprs, s.X)
+	case *ast.DeclStmt:
+		exprs = append(exprs, s.Decl)
+	default:
+		return nil // defer, go, branch, block, ... : no yield
+	}
+	for _, e := range exprs {
+		ast.Inspect(e, func(n ast.Node) bool {
+			switch x := n.(type) {
+			case *ast.FuncLit:
+				return false
+			case *ast.UnaryExpr:
+				if x.Op == token.ARROW {
+					kinds = append(kinds, "recv")
+				}
+			case *ast.CallExpr:
+				switch fn := x.Fun.(type) {
+				case *ast.Ident:
+					if fn.Name == "close" {
+						kinds = append(kinds, "close")
+					}
+				case *ast.SelectorExpr:
+					if id, ok := fn.X.(*ast.Ident); ok && id.Name == "atomic" {
+						kinds = append(kinds, "atomic")
+					} else if k, ok := lockNames[fn.Sel.Name]; ok {
+						kinds = append(kinds, k)
+					}
+				}
+			}
+			return true
+		})
+	}
+	return kinds
+}
+
+func hooksSource(pkg string) string {
+	return strings.ReplaceAll(hooksTemplate, "PKG", pkg)
+}
+
+const hooksTemplate = `// Code generated by /verif/tools/instrument. DO NOT EDIT.
+// Hook functions called by the instrumented copies of this package's files.
+// With no hook table installed they do nothing / use the real clock.
+
+package PKG
+
+import (
+	"sync/atomic"
+	"time"
+)
+
+// VerifTimer is what a (fake) AfterFunc timer offers.
+type VerifTimer interface {
+	Stop() bool
+	Reset(time.Duration) bool
+}
+
+// VerifHooks is installed by the harness for the duration of one case.
+type VerifHooks struct {
+	Yield     func(label string)
+	Spawn     func()
+	Adopt     func(label string)
+	Retire    func()
+	Now       func() time.Time
+	AfterFunc func(d time.Duration, f func()) VerifTimer
+}
+
+var verifHooks atomic.Pointer[VerifHooks]
+
+// VerifSetHooks installs (or, with nil, removes) the hook table.
+func VerifSetHooks(h *VerifHooks) { verifHooks.Store(h) }
+
+func verifYield(label string) {
+	if h := verifHooks.Load(); h != nil && h.Yield != nil {
+		h.Yield(label)
+	}
+}
+
+func verifSpawn() {
+	if h := verifHooks.Load(); h != nil && h.Spawn != nil {
+		h.Spawn()
+	}
+}
+
+func verifAdopt(label string) {
+	if h := verifHooks.Load(); h != nil && h.Adopt != nil {
+		h.Adopt(label)
+	}
+}
+
+func verifRetire() {
+	if h := verifHooks.Load(); h != nil && h.Retire != nil {
+		h.Retire()
+	}
+}
+
+func verifNow() time.Time {
+	if h := verifHooks.Load(); h != nil && h.Now != nil {
+		return h.Now()
+	}
+
+	return time.Now()
+}
+
+func verifSince(t time.Time) time.Duration { return verifNow().Sub(t) }
+
+func verifUntil(t time.Time) time.Duration { return t.Sub(verifNow()) }
+
+func verifAfterFunc(d time.Duration, f func()) VerifTimer {
+	if h := verifHooks.Load(); h != nil && h.AfterFunc != nil {
+		return h.AfterFunc(d, f)
+	}
+
+	return time.AfterFunc(d, f)
+}
+`
 
 var pkgLine = regexp.MustCompile(`(?m)^package\s+\w+`)
 
@@ -22,11 +418,7 @@ var pkgLine = regexp.MustCompile(`(?m)^package\s+\w+`)
 // and tested. The file is regenerated on every run.
 func stripTags(repo, verif string) error {
 	src := filepath.Join(repo, "utils", "xor", "xor_old.go")
-	dstDir := filepath.Join(verif, "harness", "xorold")
-	if err := os.MkdirAll(dstDir, 0o755); err != nil {
-		return err
-	}
-	dst := filepath.Join(dstDir, "xor_old_gen.go")
+	dst := filepath.Join(verif, "harness", "xorold", "xor_old_gen.go")
 	b, err := os.ReadFile(src)
 	var text string
 	if err != nil {
@@ -45,13 +437,5 @@ func stripTags(repo, verif string) error {
 			"// VerifFast calls fastXORBytes directly.\nfunc VerifFast(dst, a, b []byte, n int) { fastXORBytes(dst, a, b, n) }\n\n" +
 			"// VerifSafe calls safeXORBytes directly.\nfunc VerifSafe(dst, a, b []byte, n int) { safeXORBytes(dst, a, b, n) }\n"
 	}
-	old, _ := os.ReadFile(dst)
-	if string(old) == text {
-		return nil
-	}
-	tmp := fmt.Sprintf("%s.%d.tmp", dst, os.Getpid())
-	if err := os.WriteFile(tmp, []byte(text), 0o644); err != nil {
-		return err
-	}
-	return os.Rename(tmp, dst)
+	return writeIfChanged(dst, text)
 }
